@@ -341,11 +341,33 @@ pub fn list_input(f: &str, n: usize) -> String {
     alts.join("||")
 }
 
-pub const FAMILIES: &[&str] = &["a", "blank", "v123_", "v123or", "foo_", "pre_ids", "ge_pre_long", "hyphen_", "dash_", "gt", "digits", "onedot", "xdot", "bar", "tilde_", "mixed", "eacute"];
+pub const FAMILIES: &[&str] = &["a", "blank", "v123_", "v123or", "foo_", "pre_ids", "ge_pre_long", "hyphen_", "dash_", "gt", "digits", "onedot", "xdot", "bar", "tilde_", "mixed", "eacute", "asclist", "desclist", "windowlist", "idlist", "conjlist"];
 
 /// long input of family `f`, about `n` bytes
 pub fn family_input(f: &str, n: usize) -> String {
     let rep = |unit: &str| -> String { unit.repeat(n / unit.len().max(1) + 1) };
+    // lists of *distinct* members (a per-member scan of the earlier members stays cheap when
+    // they are all equal): about n bytes of text
+    let list = |item: &dyn Fn(usize) -> String, sep: &str| -> String {
+        let mut s = String::with_capacity(n + 32);
+        let mut k = 0usize;
+        while s.len() < n {
+            if k > 0 {
+                s.push_str(sep);
+            }
+            s.push_str(&item(k));
+            k += 1;
+        }
+        s
+    };
+    match f {
+        "asclist" => return list(&|k| format!("{}.0.0", k + 1), "||"),
+        "desclist" => return list(&|k| format!("{}.0.0", 900_000_000usize - k), "||"),
+        "windowlist" => return list(&|k| format!(">=1.{}.2 <1.{}.7", k, k), " || "),
+        "idlist" => return format!(">=1.0.0-{}", list(&|k| format!("{}", k % 977), ".")),
+        "conjlist" => return list(&|k| if k % 2 == 0 { format!(">=1.0.{}", k) } else { format!("<900000000.0.{}", k) }, " "),
+        _ => {}
+    }
     match f {
         "a" => rep("a"),
         "blank" => rep(" "),
